@@ -194,7 +194,7 @@ def controlled_stores(run, test_ev, roles):
 
 
 def p4(chk, repo, tier):
-    chk.rule("P4", "the input-valued predicates controlling stores in compute_partials/linearize equal those controlling stores in compute/apply_nonlinear (a smooth value has no special-case derivative; a branching value needs the branch in its derivative)", min_decided=2)
+    chk.rule("P4", "the input-valued predicates controlling stores in compute_partials/linearize equal those controlling stores in compute/apply_nonlinear (a smooth value has no special-case derivative; a branching value needs the branch in its derivative)", min_decided=1)
     for m in all_models(repo):
         c = m.cls
         if c.name in POSTPROCESSING or c.name in NEVER_INSTANTIATED:
